@@ -101,3 +101,22 @@ func stdioPlaintext(cfg vlib.PairConfig, prefix []byte) []byte {
 		return nil
 	}
 }
+
+// startServerOn starts a real socketace server of the given carrier on a fixed port; returns its shutdown function.
+func startServerOn(carrier string, port int, kp *vlib.KeyPair, tgt *vlib.Target) (func(), error) {
+	sc := cert.ServerConfig{Config: cert.Config{Certificate: kp.CertPEM, PrivateKey: kp.KeyPEM}}
+	var srv server.Server
+	if carrier == vlib.CarHTTPS {
+		srv = &server.HttpServer{ServerConfig: sc, Address: addr.MustParseAddress("https://" + vlib.HostPort(port)), Endpoints: server.WebsocketEndpointList{server.HttpEndpoint{Endpoint: "/ws/all"}}}
+	} else {
+		srv = &server.SocketServer{ServerConfig: sc, Address: addr.MustParseAddress("tcp+tls://" + vlib.HostPort(port))}
+	}
+	cmd := &serverCmd.Command{
+		Channels: server.Channels{&server.NetworkChannel{AbstractChannel: server.AbstractChannel{ProtoName: addr.ProtoName{Name: "data"}, Address: addr.MustParseAddress(tgt.URL())}}},
+		Servers:  server.Servers{srv},
+	}
+	if err := cmd.Startup(make(chan os.Signal, 1)); err != nil {
+		return nil, err
+	}
+	return func() { defer func() { recover() }(); cmd.Shutdown() }, nil
+}
